@@ -400,6 +400,8 @@ func judge(p prog, o observed) string {
 	switch {
 	case o.panicSig != "":
 		return "go-panic " + o.panicSig
+	case v.reject && !o.rejected && v.why == "caller code must not see a macro local":
+		return kindCapture
 	case v.reject && !o.rejected:
 		return "accepted but must be rejected: " + v.why
 	case !v.reject && o.rejected:
@@ -410,12 +412,14 @@ func judge(p prog, o observed) string {
 		return "uncaught error " + firstLine(addrRe.ReplaceAllString(o.err, "0x"))
 	case !eqLines(v.lines, o.lines):
 		if alt := model(p, true); !alt.reject && eqLines(alt.lines, o.lines) {
-			return "capture: caller code spliced with `unhygienic` reads the macro's own local of the same name instead of the caller's variable"
+			return kindCapture
 		}
 		return "wrong output"
 	}
 	return ""
 }
+
+const kindCapture = "capture: caller code spliced with `unhygienic` resolves a name to the macro's own local (read instead of the caller's variable of that name, or accepted although the caller has no such variable)"
 
 var addrRe = regexp.MustCompile(`0x[0-9a-f]+`)
 
@@ -553,29 +557,75 @@ func smallerProgs(p prog) []prog {
 
 var sigMemo = map[string]string{}
 
+// class of a violation kind: Go panics form one class whatever the (state-dependent) message is
+func classOf(kind string) string {
+	if strings.HasPrefix(kind, "go-panic") {
+		return "go-panic"
+	}
+	if strings.HasPrefix(kind, "uncaught error") {
+		return "uncaught error"
+	}
+	return kind
+}
+
+// canonical replacements: any statement that merely has to be there is turned into `println(!{x})` with x = 7
+func replacements(p prog) []prog {
+	var out []prog
+	for i, s := range p.body {
+		if s.op == 'X' && !s.unh {
+			continue
+		}
+		q := p
+		q.body = append([]stmt(nil), p.body...)
+		q.body[i] = stmt{'X', "", false}
+		if q.arg == "" {
+			q.arg = "7"
+		}
+		if valid(q) {
+			out = append(out, q)
+		}
+	}
+	return out
+}
+
 func signature(p prog, kind string) (string, prog) {
-	key := kind + "\x00" + canonShape(p)
+	class := classOf(kind)
+	key := class + "\x00" + canonShape(p)
 	cur := p
 	if s, ok := sigMemo[key]; ok {
 		return s, p
 	}
+	if class == kindCapture {
+		sigMemo[key] = class
+		return class, p
+	}
+	try := func(q prog) bool {
+		if model(q, false).ambiguous != "" {
+			return false
+		}
+		return classOf(judge(q, runSrc(macroProgram(q)))) == class
+	}
 	for changed := true; changed; {
 		changed = false
 		for _, q := range smallerProgs(cur) {
-			if model(q, false).ambiguous != "" {
-				continue
+			if try(q) {
+				cur = q
+				changed = true
+				break
 			}
-			if judge(q, runSrc(macroProgram(q))) == kind {
+		}
+		if changed {
+			continue
+		}
+		for _, q := range replacements(cur) {
+			if try(q) {
 				cur = q
 				changed = true
 				break
 			}
 		}
 	}
-	s := kind + " [minimal: " + canonShape(cur) + "]"
-	if strings.HasPrefix(kind, "capture:") {
-		s = kind // the kind names the defect
-	}
+	s := class + " [minimal: " + canonShape(cur) + "]"
 	sigMemo[key] = s
 	return s, cur
 }
